@@ -5,6 +5,9 @@ CONSTANTS
   Lens = @LENS@
   NW = @NW@
   MaxRec = @MAXREC@
+  MaxFail = @MAXFAIL@
+  FmtMax = @FMTMAX@
+  WLimit = @WLIMIT@
   WMode = "atomic"
   RMode = "full"
 INVARIANTS Emit InOrderWhole ErrIsFinal NoInterleave Complete
